@@ -341,6 +341,19 @@ def _activate(case, rest, reference=False, target=None):
                     _state['reuse_first_step_raised'] = _state.get('reuse_first_step_raised', 0) + 1
         except Exception:
             _state['reuse_first_step_raised'] = _state.get('reuse_first_step_raised', 0) + 1
+        if int(case['mass'] * 1e6) % 2 == 0:
+            # calculations and requests the library refuses on this very object, caught by the caller
+            for kw in ({'exposure': -3.0, 'rest_times': (0,)}, {'exposure': 1, 'rest_times': (0, -1e6)}):
+                try:
+                    s.calculate_activation(env0, **kw)
+                    _state['refused_answered'] = _state.get('refused_answered', 0) + 1
+                except Exception:
+                    _state['refused_refused'] = _state.get('refused_refused', 0) + 1
+            for bad_target in ('low', None):
+                try:
+                    s.decay_time(bad_target)
+                except Exception:
+                    _state['refused_refused'] = _state.get('refused_refused', 0) + 1
         if mass0:
             s.mass = case['mass']
         if opts.get('same_env'):
@@ -348,6 +361,14 @@ def _activate(case, rest, reference=False, target=None):
             env.fluence = case['fluence']
     else:
         s = A.Sample(_formula_text(case), case['mass'])
+        if int(case['mass'] * 1e6) % 3 == 0 and not reference:
+            # the very first request on a new object is one the library refuses (caught by the caller)
+            for kw in ({'exposure': -3.0, 'rest_times': (0,)}, {'exposure': 1, 'rest_times': (0, -1e6)}):
+                try:
+                    s.calculate_activation(A.ActivationEnvironment(fluence=1e8, Cd_ratio=0, fast_ratio=0), **kw)
+                    _state['refused_answered'] = _state.get('refused_answered', 0) + 1
+                except Exception:
+                    _state['refused_first'] = _state.get('refused_first', 0) + 1
     if env is None:
         env = A.ActivationEnvironment(fluence=case['fluence'], Cd_ratio=case['Cd_ratio'], fast_ratio=case['fast_ratio'])
     if case.get('rest_container') == 'tuple' and not reference:
@@ -693,6 +714,9 @@ def finish(ctx):
     ctx.require('reach.decay_time.raise_RuntimeError', 1, 'the RuntimeError refusal must be reached')
     ctx.count('reuse.first_step_decay_time_answers', _state.get('reuse_first_step_answers', 0))
     ctx.count('reuse.first_step_raised', _state.get('reuse_first_step_raised', 0))
+    ctx.count('reuse.refused_requests.refused', _state.get('refused_refused', 0))
+    ctx.count('new_object.first_request_refused', _state.get('refused_first', 0))
+    ctx.count('reuse.refused_requests.answered', _state.get('refused_answered', 0))
     ctx.require('reuse.first_step_decay_time_answers', 1, 'a re-used Sample must have answered decay_time for the '
                 'judged level before the judged calculation')
 
